@@ -32,8 +32,10 @@ TRUSTED = ('brute-force Python reading of the documented glob rules (spec_match 
            'Python fnmatch.fnmatchcase as the reference for one component',
            'path normalisation (Path.__init__/append/split) is taken from the implementation (owned by C12); the model of '
            'FileFilter.bases() uses the path-algebra model of C12 (PathAlg.mk, PathAlg.uniquetrees) and is tied to the real '
-           'bases() on every generated filter; that uniquetrees returns an antichain is a hypothesis of '
-           'C11_walk_roots_no_duplicates (path algebra), checked on every generated filter by the roots oracle')
+           'bases() on every generated filter; that these roots form an antichain covering the include bases is proved '
+           '(C11_bases_antichain, C11_bases_cover, from the key-level C12_uniquetrees_keys, no guard) and discharges the '
+           'hypothesis of C11_walk_roots_no_duplicates: C11_find_files_of_no_duplicates has none; the roots oracle still '
+           'checks it on every generated filter')
 EXPLANATION = ('Model: coq/theories/Find/{Glob,Filter,Walk}.v mirror glob.py (fnmatch.translate incl. bracket expressions, '
                '_compile_glob, _match_base, _match_glob_run(s) with the greedy offset loop, match, NameGlob) and builtins/find.py '
                '(FindResult, FileFilter._match_globs/match/__eq__, _find_files with in-place pruning over path.walk, find_from_filter '
